@@ -149,16 +149,22 @@ Definition cat_pieces (args : list (Z * list Z)) : list piece :=
 
 Inductive cat_next := CatDone | CatSplit | CatAdvance.
 
-(* >>> THE F5 SPOT <<<  what the `while True` body does after `dpos += asize`:
-     if dpos >= dest.bitwidth - 64*n: break                      (CatDone: curr is NOT advanced)
+(* >>> THE F5 SPOT <<<  what the `while True` body does after `dpos += asize`
+   (the order of the first two tests is READ OFF THE SOURCE on every run:
+   Gen/CHelpers.c_concat_split_first; the repaired code tests `dpos > 64` first, the
+   defective version (F5) tested `dpos >= remaining` first and lost the leftover):
      if dpos > 64: curr = (arg, limb, 64-(dpos-asize), dpos-64); break     (CatSplit)
-     curr = next(pieces); if dpos == 64: break                   (CatAdvance)
-   As the code stands the "dest limb finished" test comes first, so a final piece that
-   straddles the limb boundary is restarted from its bit 0 in the next limb. *)
+     if dpos >= dest.bitwidth - 64*n: break                      (CatDone: curr is not advanced)
+     curr = next(pieces); if dpos == 64: break                   (CatAdvance) *)
 Definition cat_after (dpos remaining : Z) : cat_next :=
-  if dpos >=? remaining then CatDone
-  else if dpos >? 64 then CatSplit
-  else CatAdvance.
+  if c_concat_split_first then                       (* Gen/CHelpers.v: read off the source *)
+    (if dpos >? 64 then CatSplit
+     else if dpos >=? remaining then CatDone
+     else CatAdvance)
+  else
+    (if dpos >=? remaining then CatDone
+     else if dpos >? 64 then CatSplit
+     else CatAdvance).
 
 (* one destination limb: returns (terms, curr, rest of the generator) *)
 Fixpoint cat_limb (rest : list piece) (curr : piece) (dpos remaining : Z)
